@@ -66,13 +66,13 @@ func c15Partial(r *Result) {
 
 // c15Trickle: ReadTimeout bounds the wait for a whole REQUEST, not the gap between two packets of it. A peer delivers one
 // request in five pieces 0.6 T apart (every gap below T, the whole 2.4 T): the deadline armed when the server began to wait
-// must end the session around T - the request must not be answered; the same request in five pieces 0.15 T apart is answered.
+// must end the session around T - the request must not be answered; the same request in five pieces 0.08 T apart is answered.
 func c15Trickle(r *Result) {
 	const T = 300 * time.Millisecond
 	for _, c := range []struct {
 		gap    time.Duration
 		answer bool
-	}{{T * 6 / 10, false}, {T * 15 / 100, true}} {
+	}{{T * 6 / 10, false}, {T * 8 / 100, true}} {
 		for _, done := range []int{0, 2} {
 			key := fmt.Sprintf("after %d prompt exchange(s), a request delivered in 5 pieces %v apart (ReadTimeout %v)", done, c.gap, T)
 			r.eval(key, true)
